@@ -1,4 +1,5 @@
 import FluteModel.Lemmas.ObjRecvProto
+import FluteModel.Lemmas.ObjRecvWritten
 /-
   C09  Object-writer protocol: open, writes, exactly one terminal call, nothing after.
 
@@ -88,6 +89,31 @@ theorem terminal_by_drop (P : Params) (toi maxSize : Nat) (ops : List Op) (st' :
     | closed => right; simp [absW]
     | error => right; simp [absW]
 
+/-- `complete` is issued only when exactly the announced content has been written and its MD5 matched when checked:
+    if a `complete` call was recorded then, with `s` the final state (after Drop),
+    * content encoding null: the bytes accepted by the writer (`s.written` = concatenation of the data of the `write` calls
+      that returned Ok) are exactly `transfer_length` many (= the announced content length for cenc null);
+    * a Content-MD5 `m` is announced, the writer answered `enable_md5_check() = true` and the object is not empty:
+      the digest of the written bytes equals `m` (any cenc: the digest is taken over what was written).
+    `s.tl`, `s.cenc`, `s.md5` are the values the writer was given in `new_object_writer(meta)`.
+    (A zero-length object is completed without MD5 comparison: `push_to_block2` calls `complete()` directly.) -/
+theorem complete_only_when_all_written (P : Params) (toi maxSize : Nat) (ops : List Op) (st' : St)
+    (h : run P (St.new toi maxSize) ops = .ok st') (hc : ¬ noComplete (drop st').out) :
+    ((drop st').cenc = some .null → ∃ T, (drop st').tl = some T ∧ (drop st').written.length = T) ∧
+    (∀ m, (drop st').md5 = some m → (drop st').md5Check = true → (drop st').tl ≠ some 0 →
+        P.md5 (drop st').written = m) := by
+  have hi := inv_run P _ ops (inv_new toi maxSize) h
+  have hj := jinv_drop st' hi (jinv_run P _ ops (inv_new toi maxSize) (jinv_new P toi maxSize) h)
+  have hid := (inv_drop st' hi).1
+  cases hw : (drop st').writer with
+  | none => exact absurd (hj.none_ hw).2 hc
+  | some ws =>
+    cases ws with
+    | idle => exact absurd hw hid.noIdle
+    | opened => exact absurd (hj.opened hw).nc hc
+    | error => exact absurd (hj.error hw) hc
+    | closed => exact ⟨(hj.closed hw).len, (hj.closed hw).md5⟩
+
 /-! ### non-vacuity: concrete histories that execute (`run = .ok`) and exercise the three shapes of the language -/
 
 def codec0 : Codec := ⟨fun _ _ => false, fun _ _ _ => none, fun _ _ _ _ _ => none, fun _ _ _ => false, fun _ _ _ => none⟩
@@ -111,5 +137,11 @@ example : traceAfterDrop (P0 true) [.attach 1 (some e0), .push p0] = some [.open
 example : traceAfterDrop (P0 false) [.attach 1 (some e0), .push p0] = some [.openErr, .error] := by decide
 example : traceAfterDrop (P0 true) [.attach 1 (some e0)] = some [.openOk, .error] := by decide
 example : traceAfterDrop (P0 true) [.push p0] = some [] := by decide
+
+/-- the hypothesis of `complete_only_when_all_written` is met by a concrete history: 3 bytes announced, 3 written -/
+example :
+    (match run (P0 true) (St.new 5 1000) [.attach 1 (some e0), .push p0] with
+     | .ok st => ((drop st).wtrace, (drop st).written, (drop st).tl)
+     | .error _ => ([], [], none)) = ([.openOk, .write true, .complete], [1, 2, 3], some 3) := by decide
 
 end Flute.Props.C09
